@@ -41,12 +41,19 @@ def task_program(rng, i):
         kind = rng.pick(["layered", "layered", "map", "roundtrip", "badfile", "merge", "errstr"])
         if kind == "layered":
             w = gen.gen_layered_world(rng, rng.randrange(64), two_layer=rng.chance(0.5), small=True, allow_refuse=False)
-            w["read"].pop("rel", None)      # the working directory is process-wide: tasks use absolute names
+            w["read"].pop("rel", None)
             w = sub(w, i * 10 + b)
+            if w["read"].get("opts", {}).get("root_prefix") and not w["read"].get("root"):
+                w["read"]["root"] = "$ROOT/t%d" % (i * 10 + b)     # ROOT_PREFIX of this task's private tree
+            # the working directory is process-wide ($ROOT for every task); relative names then start with the
+            # task's private directory
+            if rng.chance(0.3):
+                w["read"]["rel"] = True
             ep = w["read"]["ep"]
             if ep == "readDirs" and rng.chance(0.4):
                 ep = "readDirsHistory"
-            w["read"].pop("global_dirs", None)
+            for gk in ("global_dirs", "global_pre", "global_late"):
+                w["read"].pop(gk, None)       # the process-wide setters are documented as global: single-task prologue only
             blocks.append({"kind": "layered", "read": w["read"], "ep": ep, "cb": rng.chance(0.5)})
             nodes += w["nodes"]
         elif kind == "map":
@@ -89,7 +96,9 @@ def gen_world(rng, i, tier):
     mode = rng.pick(["random", "random", "random", "burst", "pct", "api"])
     sched = {"mode": mode, "seed": rng.getrandbits(48), "p_num": 1, "p_den": rng.pick([2, 4, 8, 16, 32, 64]), "d": rng.randint(1, 4), "len": rng.pick([500, 2000, 8000])}
     glob = rng.pick([None, None, [".d"], [".conf.d", ".d"]])
-    return {"kind": "threads", "tasks": tasks, "nodes": nodes, "sched": sched, "global_dirs": glob, "cfg": gen.io_cfg(rng)}
+    cfg = gen.io_cfg(rng)
+    cfg["cwd"] = "$ROOT"
+    return {"kind": "threads", "tasks": tasks, "nodes": nodes, "sched": sched, "global_dirs": glob, "cfg": cfg}
 
 
 def block_ops(b, base):
